@@ -6,11 +6,11 @@ import (
 	"time"
 )
 
-// Instants handed to TLC are whole seconds since 2000-01-01T00:00:00Z (TLC integers are 32 bit).
-const e2000 = 946684800
+// Instants handed to TLC are whole seconds since 00:00 UTC on 1 January of the run's epoch year (TLC
+// integers are 32 bit); inside the harness they are unix seconds.
 
 type interval struct {
-	From int64 `json:"from"` // seconds since 2000, inclusive
+	From int64 `json:"from"` // unix seconds, inclusive (made relative to the run's epoch when recorded)
 	To   int64 `json:"to"`   // exclusive
 	Off  int   `json:"off"`
 }
@@ -36,9 +36,9 @@ func zoneTable(loc *time.Location, a, b int64) []interval {
 			}
 		}
 		if n := len(out); n > 0 && out[n-1].Off == off {
-			out[n-1].To = to - e2000
+			out[n-1].To = to
 		} else {
-			out = append(out, interval{From: cur - e2000, To: to - e2000, Off: off})
+			out = append(out, interval{From: cur, To: to, Off: off})
 		}
 		if last {
 			return out
@@ -92,7 +92,7 @@ func (tr transition) atMidnight() bool {
 func transitionsOf(zt []interval) []transition {
 	var out []transition
 	for i := 1; i < len(zt); i++ {
-		out = append(out, transition{At: zt[i].From + e2000, Before: zt[i-1].Off, After: zt[i].Off})
+		out = append(out, transition{At: zt[i].From, Before: zt[i-1].Off, After: zt[i].Off})
 	}
 	return out
 }
@@ -100,6 +100,19 @@ func transitionsOf(zt []interval) []transition {
 type zoneInfo struct {
 	name  string
 	trans []transition // 2010 .. 2035
+	eras  map[int][]transition
+}
+
+// transIn returns the transitions of the zone in the years y0 .. y0+8 (the far eras: 2096.., 2196..).
+func (z *zoneInfo) transIn(y0 int) []transition {
+	if tr, ok := z.eras[y0]; ok {
+		return tr
+	}
+	a := time.Date(y0, 1, 1, 0, 0, 0, 0, time.UTC).Unix()
+	b := time.Date(y0+9, 1, 1, 0, 0, 0, 0, time.UTC).Unix()
+	tr := transitionsOf(zoneTable(mustLoad(z.name), a, b))
+	z.eras[y0] = tr
+	return tr
 }
 
 var zoneCache = map[string]*zoneInfo{}
@@ -119,7 +132,7 @@ func zoneOf(name string) *zoneInfo {
 	loc := mustLoad(name)
 	a := time.Date(2010, 1, 1, 0, 0, 0, 0, time.UTC).Unix()
 	b := time.Date(2036, 1, 1, 0, 0, 0, 0, time.UTC).Unix()
-	z := &zoneInfo{name: name, trans: transitionsOf(zoneTable(loc, a, b))}
+	z := &zoneInfo{name: name, trans: transitionsOf(zoneTable(loc, a, b)), eras: map[int][]transition{}}
 	zoneCache[name] = z
 	return z
 }
